@@ -14,15 +14,22 @@ Definition qA : question := mk_q www_example_com T_A 1.
 (* two stray datagrams (wrong ID; right ID would be needed) are skipped, the case-mixed echo of the question is accepted *)
 Example ex_exchange_udp :
   exchange_accept false 77 (Some qA)
-    [DgMsg (mk_wmsg 76 [qA]); DgMsg (mk_wmsg 78 []); DgMsg (mk_wmsg 77 [mk_q Www_Example_COM T_A 1])] = XAccept 2.
+    [DgMsg (mk_wmsg 76 0 [qA]); DgMsg (mk_wmsg 78 0 []); DgMsg (mk_wmsg 77 0 [mk_q Www_Example_COM T_A 1])] = XAccept 2.
 Proof. reflexivity. Qed.
 (* the same on a stream is a protocol error, and a right-ID reply for another name is refused *)
 Example ex_exchange_stream :
-  exchange_accept true 77 (Some qA) [DgMsg (mk_wmsg 76 [qA]); DgMsg (mk_wmsg 77 [qA])] = XErrId 0.
+  exchange_accept true 77 (Some qA) [DgMsg (mk_wmsg 76 0 [qA]); DgMsg (mk_wmsg 77 0 [qA])] = XErrId 0.
 Proof. reflexivity. Qed.
 Example ex_exchange_wrong_question :
-  exchange_accept false 77 (Some qA) [DgMsg (mk_wmsg 77 [mk_q (notexample_com ++ [[119;119;119]]) T_A 1])] = XErrQuestion 0.
+  exchange_accept false 77 (Some qA) [DgMsg (mk_wmsg 77 0 [mk_q (notexample_com ++ [[119;119;119]]) T_A 1])] = XErrQuestion 0.
 Proof. reflexivity. Qed.
+
+(* an error reply is held to the same rule: right ID, NXDOMAIN, question rewritten to another name *)
+Example ex_exchange_error_reply_wrong_question :
+  exchange_accept false 77 (Some qA) [DgMsg (mk_wmsg 77 3 [mk_q (notexample_com ++ [[119;119;119]]) T_A 1])] = XErrQuestion 0 /\
+  exchange_accept true 77 (Some qA) [DgMsg (mk_wmsg 77 5 [])] = XErrQuestion 0 /\
+  exchange_accept false 77 (Some qA) [DgMsg (mk_wmsg 77 3 [qA])] = XAccept 0.
+Proof. repeat split. Qed.
 
 (* glue for an NS host inside com. is taken at level 1, the look-alike notexample.com host too (it IS inside com.),
    a host under another TLD and a loopback address are not *)
